@@ -382,3 +382,12 @@ def _k_modelfunc(self, name, params, ret="float", n_labels=None):
 
 
 K.modelfunc = _k_modelfunc
+
+
+def _k_leq(self, a, b, tol=1e-4):
+    if self.mode == "native":
+        return a <= b + tol * (1 + abs(a) + abs(b))
+    return a <= b
+
+
+K.leq = _k_leq
